@@ -66,6 +66,14 @@ class Ctx:
         `theorems`: fully qualified names that must exist.  A missing theorem, a foreign axiom or a
         forbidden token is a broken proof obligation."""
         pid = self.pid
+        if os.environ.get("LV_DEV_SKIP_PROOFS") == "1":
+            # development aid only (never used by the registered commands): exercise the correspondence
+            # while proofs are being repaired; the run is marked as not discharging anything
+            lvlib.build_lean(["lvdriver"])
+            self.cov["obligations"] = len(theorems)
+            self.cov["discharged"] = 0
+            self.violation("proof-obligation", {"broken": ["proof audit skipped (LV_DEV_SKIP_PROOFS=1)"]}, found_input=False)
+            return False
         lvlib.build_lean([f"LoomVerif.Props.{pid}", "lvdriver"])
         audit = os.path.join(lvlib.LEAN_DIR, "LoomVerif", "Audit", f"{pid}.lean")
         cmd = ["lake", "env", "lean", audit]
